@@ -1021,6 +1021,7 @@ func (y *ifFeatureEval) push(b bool) {
 
 type When struct {
 	parent     Meta
+	onParent   bool
 	expr       string
 	desc       string
 	ref        string
@@ -1030,6 +1031,21 @@ type When struct {
 func (y *When) Expression() string {
 	return y.expr
 }
+
+// OnParent is true when the data definition got this when from the uses or the
+// augment that brought it in. RFC7950 Sec 7.21.5: such a when is evaluated on the
+// node that holds the uses or that is augmented, the parent of the definition.
+func (y *When) OnParent() bool {
+	return y.onParent
+}
+
+// inherited makes the copy of a uses' or augment's when that a definition gets
+func (y *When) inherited() *When {
+	copy := *y
+	copy.onParent = true
+	return &copy
+}
+
 
 type Must struct {
 	parent       Meta
